@@ -173,7 +173,7 @@ def reference(tree, prods, deco, style):
                 kw[d[0]] = subs[j] if d[1] == "=" else bool(subs[j])
         has_named = any(p == pi_ for (pi_, _) in deco
                         for p in [pi_] if prods[p][0] == rule)
-        if style == "none":
+        if style == "none" or (style == "partial" and rule != prods[0][0]):
             if has_named:
                 # default `obj` action: an object of the rule's class with
                 # the named matches of this alternative
@@ -246,6 +246,21 @@ def run_unit(u):
                                          "m": str(e)[:100]}, {"grammar": text})
                     break
                 st["parser_triples"] += 1
+                # a second action table on a Grammar object that was used
+                # with another one before: actions are resolved onto the
+                # grammar's symbols at every construction, and a rule the
+                # new table does not name falls back to its default
+                pp = None
+                if style == "rule" and not deco and \
+                        len({l for l, _ in vprods}) > 1:
+                    try:
+                        gsh = grammar_from_string(text)
+                        build("lr", gsh, mon, tag=(gi, 5), actions=acts(), ws="")
+                        top = vprods[0][0]
+                        pp = build("lr", gsh, mon, tag=(gi, 6), ws="",
+                                   actions={top: acts()[top]})
+                    except (Exception, BudgetExceeded):   # noqa: BLE001
+                        pp = None
                 for s in inputs:
                     o1 = parse(p1, s, mon)
                     if o1.kind != "ok":
@@ -269,6 +284,14 @@ def run_unit(u):
                         if r2 != r1:
                             probs.append(("call_actions(tree) != on-the-fly",
                                           str(r2), str(r1)))
+                    if pp is not None and o2.kind == "ok":
+                        o5 = parse(pp, s, mon)
+                        want5 = reference(t, vprods, deco, "partial")
+                        r5 = norm(o5.value) if o5.kind == "ok" else o5.brief()
+                        if r5 != want5:
+                            probs.append(("second action table on a used "
+                                          "Grammar object: result != reference",
+                                          str(r5), str(want5)))
                     o2f = parse(p2f, s, mon)
                     if o2f.kind != "ok":
                         probs.append(("tree-building parser with an accept-"
